@@ -226,6 +226,28 @@ func runPop(raw json.RawMessage, seed int64) (res Result) {
 			add("GeneratePOP", err.Error())
 			return
 		}
+		// after a proof has verified under its key, the same proof under RELATED keys (the opposite key: the same bytes but one
+		// header bit; the key re-decoded; the double) is still judged on its own
+		if ok, err := crypto.BLSVerifyPOP(pk, pop); !ok || err != nil {
+			add("Sound", fmt.Sprintf("BLSVerifyPOP of the generated proof: (%v, %v)", ok, err))
+		}
+		negX := new(big.Int).Sub(ref.R, x)
+		for name, other := range map[string]crypto.PublicKey{"the opposite key": w.SK(negX).PublicKey(), "the double key": w.SK(new(big.Int).Mod(new(big.Int).Lsh(x, 1), ref.R)).PublicKey()} {
+			for rep := 0; rep < 2; rep++ {
+				if ok, err := crypto.BLSVerifyPOP(other, pop); ok || err != nil {
+					add("Sound", fmt.Sprintf("after BLSVerifyPOP(pk, pop) = true, BLSVerifyPOP(%s, pop) = (%v, %v)", name, ok, err))
+				}
+				if dec, err := crypto.DecodePublicKey(crypto.BLSBLS12381, other.Encode()); err == nil {
+					if ok, _ := crypto.BLSVerifyPOP(dec, pop); ok {
+						add("Sound", fmt.Sprintf("after BLSVerifyPOP(pk, pop) = true, BLSVerifyPOP(%s re-decoded, pop) = true", name))
+					}
+				}
+				res.Evals += 2
+			}
+		}
+		if ok, err := crypto.BLSVerifyPOP(pk, pop); !ok || err != nil {
+			add("Sound", fmt.Sprintf("BLSVerifyPOP of the generated proof, second time: (%v, %v)", ok, err))
+		}
 		tags := append(append([]string{}, c.Tags...), "BLS_POP_BLS12381G1_XOF:KMAC128_SSWU_RO_POP_BLS_SIG_", "\x00", string(bytes.Repeat([]byte("t"), 300)))
 		// padded and cut variants of the suite strings: zero bytes, spaces or repeated last characters appended (up to and beyond 64,
 		// 128 and 168 bytes in total), characters removed from the end
